@@ -22,6 +22,7 @@ func init() {
 			"(J4) in every UnmarshalJSON method, with an interface- or pointer-typed document field nil (key absent) no path formats it (fmt, strconv), dereferences it or asserts its type unchecked, so an absent key stays empty; " +
 			"(J5) shapes: Tags marshal a map[string]string, WayNodes a []int64 filled from the way nodes' ID, Relation.Members is never omitted and an empty Members marshals as the literal `[]`, a zero Date as the literal null, the osmjson keys of tables/osmjson.json are carried by the documented fields; each codec helper performs exactly one operation with its parameters, through encoding/json when no codec is installed and through the installed codec otherwise; every (un)marshal operation reached from a MarshalJSON/UnmarshalJSON method uses the installed codec whenever one is installed (a direct encoding/json call is accepted only on operands whose JSON form involves no Go-level convention, or on paths taken only when no codec is installed) and never touches the codec variable while it is nil; " +
 			"(J6) with an interface-typed document field (version: number or string) non-nil and of unknown dynamic type, a value computed from it reaches the receiver on every path that returns without error. " +
+			"(J8) in every MarshalJSON method a time handed to the codec is the marshalled value's own time (moved to another zone at most; Truncate / Round lose the sub-second part), and a time formatted by hand that reaches the output uses a constant layout with fractional seconds that its reader parses: time.Time's own unmarshaler (RFC 3339 with nanoseconds) unless the type declares its own UnmarshalJSON, which must parse with the same layout. " +
 			"NOT decided: equality of round-tripped values, tag order, and whether a user-installed codec implements JSON and Go's struct-tag conventions the way encoding/json does (a run-time configuration).",
 		Assumptions: []string{"go/types (x/tools v0.29.0)", "documented naming rules of encoding/json (struct tags, omitempty, Marshaler/Unmarshaler in the method set)", "the path-enumerating abstract interpreter of rules/c03_eval.go (one iteration per loop, lists built on the path unrolled, calls outside the repository and the codec helpers opaque and assumed to succeed, function literals, method values, deferred calls, pointers to fields and never-reassigned unexported package-level tables are followed; goroutines, goto, generic functions and calls whose target is not known on the path make the exploration undecided)", "tables/osmjson.json transcribes the osmjson documentation correctly"},
 		LevelText:   "Structural necessary conditions of the osmjson shape and of the JSON round trip: the writer's flattening and the reader's dispatch agree type by type on one literal per type, which equals the XML name and the Type constant; an absent optional key is never formatted or dereferenced; a value of any dynamic type reaches the receiver; container shapes and key names match osmjson; the installed codec is used whenever one is installed. Value equality and third-party codec behaviour are not decided.",
@@ -36,6 +37,7 @@ func init() {
 			{ID: "J5", Floor: 42, Doc: "shapes (tags object, node id array, members never null, null date: 5), osmjson key names (35), codec helpers (2); plus one obligation per observed codec operation", Run: c05J5},
 			{ID: "J6", Floor: 1, Doc: "interface-typed document fields (version: number or string) reach the receiver whatever their dynamic type", Run: c05J6},
 			{ID: "J7", Floor: 6, Doc: "every JSON marshaler (MarshalJSON / MarshalText) of the package has a value receiver, so that it is in the method set of T and *T and a value that is not addressable is still written as osmjson (11 today)", Run: c05J7},
+			{ID: "J8", Floor: 1, Doc: "times written into JSON keep their sub-second part: the codec gets the value's own time, or a hand-formatted string in a layout with fractional seconds that the reader parses (Date.MarshalJSON)", Run: c05J8},
 		},
 		Mutants: append([]core.Mutant{
 			{Name: "j7-osm-marshaljson-pointer-receiver", File: "osm.go", Find: "func (o OSM) MarshalJSON(", Replace: "func (o *OSM) MarshalJSON(", ExpectRule: "J7", ExpectConstruct: "receiver@OSM.MarshalJSON"},
@@ -67,7 +69,7 @@ func init() {
 			{Name: "tags-std-marshal-direct", File: "tag.go", Find: "return marshalJSON(ts.Map())", Replace: "return json.Marshal(struct{ Tags map[string]string }{ts.Map()})", ExpectRule: "J5", ExpectConstruct: "codec@Tags.MarshalJSON"},
 			{Name: "members-custom-codec-direct", File: "relation.go", Find: "return marshalJSON([]Member(ms))", Replace: "return CustomJSONMarshaler.Marshal([]Member(ms))", ExpectRule: "J5", ExpectConstruct: "codec@Members.MarshalJSON"},
 			{Name: "helper-branches-swapped", File: "json.go", Find: "if CustomJSONUnmarshaler == nil {", Replace: "if CustomJSONUnmarshaler != nil {", ExpectRule: "J5", ExpectConstruct: "helper@unmarshalJSON"},
-		}, c05Mutants2...),
-		Benign: append(append([]core.Mutant{}, c05Benign...), c05Benign2...),
+		}, append(append([]core.Mutant{}, c05Mutants2...), c05TimeMutants...)...),
+		Benign: append(append(append([]core.Mutant{}, c05Benign...), c05Benign2...), c05TimeBenign...),
 	})
 }
